@@ -146,6 +146,7 @@ class Textual:
         self.root_name = root_name
         self.info = {}  # node_key -> (bound names, names assigned before the node)
         self.owner = {}  # (template, path token index) -> node_key
+        self.dynroot = set()  # (template, path token index) of paths whose first segment is itself a path
         self.walked = set()
         self._all = {}
         self.sites = {}  # partial name -> number of include/render nodes naming it in the expanded program
@@ -199,6 +200,8 @@ class Textual:
             self.info.setdefault(k, (frozenset(bound), frozenset(assigned)))
             for p in own_paths(node):
                 self.owner.setdefault((name, int(p.token.start_index)), k)
+                if not isinstance(p.path[0], str):
+                    self.dynroot.add((name, int(p.token.start_index)))
             b, a = binding_names(node)
             assigned.extend(a)
             for c in child_nodes(node):
@@ -465,6 +468,11 @@ def observe(prog):
             if kind == "resolve":
                 resolves.add((root, tmpl, pos, str(f["origin"])))
                 return
+            if chain:
+                # BoundTemplate.name is the base name; the analysis names a partial as the tag spells it
+                lit = partial_info(chain[-1][1])[1]
+                if lit is not None and lit != tmpl and lit.rsplit("/", 1)[-1] == tmpl:
+                    tmpl = lit
             tx.ensure(tmpl)
             if (tmpl, pos) not in tx.owner and chain:
                 # `include 'q' with v`: v is evaluated after the context switched to the included template;
@@ -479,7 +487,7 @@ def observe(prog):
             path = f.get("path") or []
             shape = [s if isinstance(s, (str, int)) and not isinstance(s, bool) else None for s in path]
             kinds = tuple(partial_info(n)[0] + ":" + str(partial_info(n)[1]) for _, n in chain)
-            gets.setdefault((root, tmpl, pos, str(f["origin"]), exc, kinds), shape)
+            gets.setdefault((root, tmpl, pos, str(f["origin"]), exc, kinds), (shape, (tmpl, pos) in tx.dynroot))
 
     old = _verif.sink
     _verif.sink = sink
@@ -499,7 +507,8 @@ def observe(prog):
     for k, vs in analysis.variables.items():
         for v in vs:
             byspan.setdefault((str(k), str(v.span.template_name), int(v.span.index)), []).append(v.segments)
-    for (root, tmpl, pos, origin, exc, kinds), shape in sorted(gets.items(), key=lambda kv: (kv[0][:4], str(kv[0][4]), kv[0][5])):
+    allspans = {(str(v.span.template_name), int(v.span.index)) for vs in analysis.variables.values() for v in vs}
+    for (root, tmpl, pos, origin, exc, kinds), (shape, dyn) in sorted(gets.items(), key=lambda kv: (kv[0][:4], str(kv[0][4]), kv[0][5])):
         segs = byspan.get((root, tmpl, pos))
         path_ok = None
         if segs is not None:
@@ -507,7 +516,7 @@ def observe(prog):
                 len(s) == len(shape) and all(isinstance(a, list) or b is None or a == b for a, b in zip(s, shape)) for s in segs
             )
         obs["gets"].append({"root": root, "tmpl": tmpl, "pos": pos, "origin": origin, "exc": exc, "chain": list(kinds),
-                            "path_ok": path_ok})
+                            "path_ok": path_ok, "dynroot": dyn, "span_reported": (tmpl, pos) in allspans})
     obs["filters"] = sorted(list(x) for x in filters)
     obs["tags"] = sorted(list(x) for x in tags)
     obs["resolves"] = sorted(list(x) for x in resolves)
@@ -532,6 +541,11 @@ def direct_oracle(obs):
     if obs.get("an_async_same") is False:
         return ("analysis|async-differs", "analyze_async() reports something else than analyze()")
     for g in obs["gets"]:
+        if g.get("dynroot"):
+            # the root is computed from data ([x].y): all the analysis can report is the reference itself
+            if not g.get("span_reported"):
+                return ("variable-omitted|reference", g)
+            continue
         if g["root"] not in var_roots:
             return ("variable-omitted|root", g)
         if (g["root"], g["tmpl"], g["pos"]) not in var_spans:
@@ -546,7 +560,7 @@ def direct_oracle(obs):
             return ("tag-omitted|" + name, [name, tmpl, pos])
     sites = obs.get("sites") or {}
     for g in obs["gets"]:
-        if g["origin"] not in ("global", "missing"):
+        if g["origin"] not in ("global", "missing") or g.get("dynroot"):
             continue
         if g["exc"] is None:
             return ("global-unclassified|reference-not-found-in-ast", g)
